@@ -8,11 +8,11 @@
    reduced-QR contract and a spanning sketch); svd_interface for ANY back end incl. a callable (C05_interface_generic,
    C05_interface_masked_generic), the non_negative option for every method / mask / flip (C05_interface_nonneg), and the
    post-processing pipeline as a trace re-derived from the Python source on every run (C05_interface_traced). *)
-From Coq Require Import List Arith Bool Reals.
+From Coq Require Import List Arith Bool Reals QArith.
 From TLV Require Import Base.Ops Base.Tensor Base.RSum Model.Svd Proofs.SvdProofsAux Proofs.SvdProofs
   Proofs.SvdNNProofs Proofs.SvdSymeigProofs Proofs.SvdRandProofs Proofs.SvdInterfaceProofs
   Proofs.SvdGramProofs Proofs.SvdSymeigFull Proofs.SvdMaskProofs Proofs.SvdDecisions
-  Proofs.SvdWitness Proofs.SvdSymeigShapes Proofs.SvdEckartYoung Proofs.SvdRandE2E Proofs.SvdInterfaceAll Proofs.SvdSymeigBest Base.BigSum Model.SvdConj Proofs.SvdConjProofs Model.SvdValidate Proofs.SvdValidateProofs Proofs.SvdUnique.
+  Proofs.SvdWitness Proofs.SvdSymeigShapes Proofs.SvdEckartYoung Proofs.SvdRandE2E Proofs.SvdInterfaceAll Proofs.SvdSymeigBest Base.BigSum Model.SvdConj Proofs.SvdConjProofs Model.SvdValidate Proofs.SvdValidateProofs Proofs.SvdUnique Model.SvdComplex.
 Import ListNotations.
 Local Open Scope nat_scope.
 
@@ -1059,3 +1059,47 @@ Theorem C05_randomized_S_true_partial : forall (svd : list (list R) -> bool -> t
   forall t, t < length Sg -> nth t Sg 0%R = nth t Sx 0%R.
 Proof. exact randomized_S_true. Qed.
 Print Assumptions C05_randomized_S_true_partial.
+
+(* an orthogonal, not normalised decomposition M = sum_t a_t v_t^T (a_a . a_b = lam_a [a = b], lam non-increasing) determines the squared
+   singular values: lam_t = s_t^2 for every singular value decomposition of M (FULL; both Eckart-Young forms + both error identities) *)
+Theorem C05_orth_singular_values : forall m n p p' (M A V U' V' : nat -> nat -> R) (lam s' : nat -> R),
+  (forall a b, a < p -> b < p -> rsum m (fun i => (A i a * A i b)%R) = if Nat.eqb a b then lam a else 0%R) ->
+  orthonormal_rows p n V ->
+  (forall i j, i <= j -> j < p -> (lam j <= lam i)%R) ->
+  (forall i j, i < m -> j < n -> M i j = rsum p (fun t => (A i t * V t j)%R)) ->
+  orthonormal_cols m p' U' -> orthonormal_rows p' n V' ->
+  (forall t, t < p' -> (0 <= s' t)%R) -> (forall i j, i <= j -> j < p' -> (s' j <= s' i)%R) ->
+  (forall i j, i < m -> j < n -> M i j = rsum p' (fun t => (U' i t * s' t * V' t j)%R)) ->
+  forall t, t < p -> t < p' -> ((s' t)^2 = lam t)%R.
+Proof. exact orth_singular_values. Qed.
+Print Assumptions C05_orth_singular_values.
+
+(* symeig_svd (FULL, both branches, every n_eigenvecs; eigh_contract2 with ascending eigenvalues, kept eigenvalues above eps): the returned
+   singular values are the leading singular values of EVERY singular value decomposition of M *)
+Theorem C05_symeig_wide_S_true : forall (eigh : list (list R) -> list R * list (list R)) eps (M : list (list R)) d1 d2 n lam W,
+  d1 <= d2 -> rect d1 d2 M ->
+  eigh (mmul Rops d2 (transp Rops d2 M) M) = (lam, W) ->
+  eigh_contract2 d2 (mmul Rops d2 (transp Rops d2 M) M) lam W -> ascending lam ->
+  let p := Nat.min (Nat.min d1 d2) (n_kept d1 d2 n) in
+  (forall t, t < p -> (0 <= eps < nth (d2 - 1 - t) lam 0)%R) ->
+  let '(U, Sg, V) := symeig_svd Rops eigh sqrt eps M d1 d2 n in
+  forall Ux Sx Vx, svd_contract d1 d2 (mget Rops M) false (Ux, Sx, Vx) -> forall t, t < p -> nth t Sg 0%R = nth t Sx 0%R.
+Proof. exact symeig_wide_S_true. Qed.
+Print Assumptions C05_symeig_wide_S_true.
+
+Theorem C05_symeig_tall_S_true : forall (eigh : list (list R) -> list R * list (list R)) eps (M : list (list R)) d1 d2 n lam W,
+  d2 < d1 -> rect d1 d2 M ->
+  eigh (mmul Rops d1 M (transp Rops d2 M)) = (lam, W) ->
+  eigh_contract2 d1 (mmul Rops d1 M (transp Rops d2 M)) lam W -> ascending lam ->
+  let p := Nat.min (Nat.min d1 d2) (n_kept d1 d2 n) in
+  (forall t, t < p -> (0 <= eps < nth (d1 - 1 - t) lam 0)%R) ->
+  let '(U, Sg, V) := symeig_svd Rops eigh sqrt eps M d1 d2 n in
+  forall Ux Sx Vx, svd_contract d1 d2 (mget Rops M) false (Ux, Sx, Vx) -> forall t, t < p -> nth t Sg 0%R = nth t Sx 0%R.
+Proof. exact symeig_tall_S_true. Qed.
+Print Assumptions C05_symeig_tall_S_true.
+
+(* the executable Gaussian-rational model at work: U = [[i]], V = [[1]], U-based decision: phase i, U' = i conj(i) = 1, V' = 1 i = i,
+   so U' V' = i = U V and the deciding entry became real positive *)
+Example C05_complex_flip_example :
+  svd_flip_c (fun q => q) [[(0, 1)%Q]] [[(1, 0)%Q]] true = ([[(1, 0)%Q]], [[(0, 1)%Q]]).
+Proof. vm_compute. reflexivity. Qed.
